@@ -12,6 +12,7 @@ import time
 import traceback
 
 ROOT = os.path.dirname(os.path.dirname(os.path.abspath(__file__)))
+RDIR = os.environ.get('PYVC_REPLAY_DIR', 'replays')      # development runs on scratch copies use their own directory
 sys.path.insert(0, ROOT)
 
 
@@ -61,8 +62,8 @@ def replay_obligation(pid, contract, obname, model, A, hyps, goal, meta, solver_
     from pyvc import replay as RP
     from pyvc.contracts import Out
     from pyvc.symexec import State
-    os.makedirs(os.path.join(ROOT, 'replays', pid), exist_ok=True)
-    path = os.path.join('replays', pid, _sanitize(obname) + '.json')
+    os.makedirs(os.path.join(ROOT, RDIR, pid), exist_ok=True)
+    path = os.path.join(RDIR, pid, _sanitize(obname) + '.json')
     rec = dict(property=pid, obligation=obname, function=contract.key, clause=meta.get('clause'), solver_output=solver_text[:4000],
                expected_clause=goal.sexpr()[:3000], confirmed=None)
     try:
@@ -178,8 +179,8 @@ def worker(task):
 
 
 def write_unreplayed(pid, contract, obname, goal, solver_text):
-    os.makedirs(os.path.join(ROOT, 'replays', pid), exist_ok=True)
-    path = os.path.join('replays', pid, _sanitize(obname) + '.json')
+    os.makedirs(os.path.join(ROOT, RDIR, pid), exist_ok=True)
+    path = os.path.join(RDIR, pid, _sanitize(obname) + '.json')
     json.dump(dict(property=pid, obligation=obname, function=contract.key, expected_clause=goal.sexpr()[:3000], solver_output=solver_text[:4000],
                    confirmed=None, replay_error='internal obligation (callee precondition / loop invariant): no native input constructor'),
               open(os.path.join(ROOT, path), 'w'), indent=1)
@@ -231,7 +232,7 @@ def main(argv=None):
             if (not l.property_ids or pid in l.property_ids) and ns.only is None:
                 tasks.append(('lemma', mn, i, pid, tier))
     # clean replays of this property
-    rdir = os.path.join(ROOT, 'replays', pid)
+    rdir = os.path.join(ROOT, RDIR, pid)
     if os.path.isdir(rdir):
         for f in os.listdir(rdir):
             os.unlink(os.path.join(rdir, f))
@@ -352,8 +353,8 @@ def finish(pid, tier, seed, cfg, reports, extra, t0, partial=False):
                     elif len(samples) < 4:
                         samples.append(dict(obligation=o['name'], result='discharged', backend='frame-checker', detail=o['detail'][:160]))
                 elif o['status'] == 'violated':
-                    os.makedirs(os.path.join(ROOT, 'replays', pid), exist_ok=True)
-                    path = os.path.join('replays', pid, _sanitize(o['name']) + '.json')
+                    os.makedirs(os.path.join(ROOT, RDIR, pid), exist_ok=True)
+                    path = os.path.join(RDIR, pid, _sanitize(o['name']) + '.json')
                     json.dump(dict(property=pid, obligation=o['name'], line=o.get('line'), solver_output=o['detail'], confirmed=None,
                                    replay_error='frame obligation: decided by the provenance checker, no input to replay'), open(os.path.join(ROOT, path), 'w'), indent=1)
                     violations.append((o['name'], path, 'no-failing-input-found'))
@@ -402,14 +403,14 @@ def finish(pid, tier, seed, cfg, reports, extra, t0, partial=False):
     # replace the record of the last full run on the real tree
     sub = 'scratch' if (partial or os.environ.get('PYVC_SCRATCH_EVIDENCE')) else ''
     os.makedirs(os.path.join(ROOT, 'evidence', sub), exist_ok=True)
-    json.dump(ev, open(os.path.join(ROOT, 'evidence', sub, f'{pid}.json'), 'w'), indent=1)
+    json.dump(ev, open(os.path.join(ROOT, 'evidence', sub, f"{pid}{'' if RDIR == 'replays' else '_' + RDIR}.json"), 'w'), indent=1)
     print(f"{pid} tier={tier}: functions={len(functions)} obligations={n_obl} discharged={n_dis} violations={len(violations)} known={len(known_lines)} undecided={len(undecided)} errors={len(errors)} wall={wall:.1f}s exit={code}")
     return code
 
 
 def write_lemma_replay(pid, ob):
-    os.makedirs(os.path.join(ROOT, 'replays', pid), exist_ok=True)
-    path = os.path.join('replays', pid, _sanitize(ob['name']) + '.json')
+    os.makedirs(os.path.join(ROOT, RDIR, pid), exist_ok=True)
+    path = os.path.join(RDIR, pid, _sanitize(ob['name']) + '.json')
     json.dump(dict(property=pid, obligation=ob['name'], solver_output=ob.get('model'), confirmed=None,
                    replay_error='lemma over contracts: no code is executed'), open(os.path.join(ROOT, path), 'w'), indent=1)
     return path
